@@ -100,6 +100,8 @@ def run_pair(c):
     b = session.run(build_spec(c, True), obs='off')
     va, vb = view(a), view(b)
     vios = []
+    if 'Watchdog' in (va['error'], vb['error']):
+        return [], dict(eligible=False, why='stopped by the session watchdog')
     for key in ('error', 'orders', 'trades', 'balances', 'finishing_balance'):
         if va[key] != vb[key]:
             x, y = va[key], vb[key]
